@@ -410,7 +410,63 @@ static void run_two_intervals(seqx::Runner &R, int pa, int pb) {
     R.end(true);
 }
 
+// a sleep that the task given to start() does not wait for: start() returns when the task is done and leaves that sleep
+// registered - even when it is already due at that moment, because the thread was busy past its time point. It is completed by a
+// later start() (never cancelled unless somebody cancels it or the scheduler is destroyed).
+extern "C" void seqx_busy_ns(int64_t ns);
+static cocls::async<void> busy_sleeper(cocls::scheduler &sch, int dur, int busy) {
+    co_await sch.sleep_for(units(dur));
+    seqx_busy_ns((int64_t)busy * UNIT_US * 1000);  // works for a while before it finishes the task
+}
+static cocls::async<void> bystander(cocls::scheduler &sch, int dur, int res[3]) {
+    long want = us_of(vstd::chrono::system_clock::now()) + dur * UNIT_US;
+    res[2] = (int)want;
+    try {
+        co_await sch.sleep_for(units(dur));
+        res[0] = 1;
+    } catch (const cocls::await_canceled_exception &) {
+        res[0] = 2;
+    }
+    res[1] = (int)us_of(vstd::chrono::system_clock::now());
+}
+static cocls::async<void> plain_sleeper(cocls::scheduler &sch, int dur) { co_await sch.sleep_for(units(dur)); }
+static void run_leftover(seqx::Runner &R, int da, int busy, int db) {
+    char nm[96];
+    snprintf(nm, sizeof nm, "leftover-sleep;task_sleeps=%d;task_busy=%d;bystander_sleeps=%d", da, busy, db);
+    R.begin(nm);
+    {
+        int res[3] = {0, 0, 0};  // 0 pending / 1 woke / 2 cancelled, when, wanted
+        int at_first_return = -1, at_second_return = -1;
+        {
+            cocls::scheduler sch;
+            bystander(sch, db, res).detach();
+            cocls::future<void> task = busy_sleeper(sch, da, busy).start();
+            sch.start(task);
+            at_first_return = res[0];
+            R.step();
+            // second session: a task that outlasts the bystander's time point
+            cocls::future<void> task2 = plain_sleeper(sch, db + 2).start();
+            sch.start(task2);
+            at_second_return = res[0];
+            R.step();
+        }
+        if (at_first_return == 2)
+            R.fail("sched/single/leftover-sleep-cancelled", "start(task) returned and a sleep nobody cancelled (due at %d us) had been completed with await_canceled_exception", res[2]);
+        if (at_second_return != 1)
+            R.fail("sched/single/leftover-sleep-lost", "a sleep left registered by the first start() (due at %d us) is %s after a second start() that ran past its time point", res[2],
+                   at_second_return == 2 ? "cancelled" : "still pending");
+        if (res[0] == 1 && res[1] < res[2]) R.fail("sched/single/early", "bystander woke at %d us, requested %d us", res[1], res[2]);
+        R.outcome(seqx::mix((uint64_t)at_first_return, (uint64_t)(da * 100 + busy * 10 + db)));
+        R.state(seqx::hash_str(nm));
+    }
+    R.end(true);
+}
+
 static void s_enum(seqx::Runner &R, bool thorough) {
+    for (int da = 1; da <= 2; da++)
+        for (int busy = 0; busy <= 2; busy++)
+            for (int db = 1; db <= 5; db++)
+                if (R.next_case()) run_leftover(R, da, busy, db);
     for (int pa = 1; pa <= 3; pa++)
         for (int pb = 1; pb <= 3; pb++)
             if (R.next_case()) run_two_intervals(R, pa, pb);
@@ -569,6 +625,10 @@ void seqx_replay(seqx::Runner &R, const std::string &c) {
         std::string tok;
         while (std::getline(ss, tok, ',')) order.push_back(atoi(tok.c_str()));
         run_heap(R, order, atoi(c.c_str() + c.find("cancel=") + 7));
+    } else if (c.rfind("leftover-sleep;", 0) == 0) {
+        int da = 1, busy = 0, db = 1;
+        sscanf(c.c_str(), "leftover-sleep;task_sleeps=%d;task_busy=%d;bystander_sleeps=%d", &da, &busy, &db);
+        run_leftover(R, da, busy, db);
     } else if (c.rfind("two-intervals;", 0) == 0) {
         int pa = 1, pb = 1;
         sscanf(c.c_str(), "two-intervals;a=%d;b=%d", &pa, &pb);
